@@ -86,8 +86,9 @@ def simrun_replay(choices, out):
     return (int(m.group(1)), int(m.group(2))) if m else (0, 0)
 
 
-VIOL_RE = re.compile(r'<<"VIOLATION", \{([^}]*)\}, (\d+), (\d+), (\d+)>>')
-DRIFT_RE = re.compile(r'<<"DRIFT", "(\w+)", \{([^}]*)\}, (\d+), (\d+), (\d+)>>')
+# TLC's pretty printer wraps tuples longer than 80 columns over several lines ("<< "VIOLATION",\n   {...},\n ...")
+VIOL_RE = re.compile(r'<<\s*"VIOLATION",\s*\{([^}]*)\},\s*(\d+),\s*(\d+),\s*(\d+)\s*>>')
+DRIFT_RE = re.compile(r'<<\s*"DRIFT",\s*"(\w+)",\s*\{([^}]*)\},\s*(\d+),\s*(\d+),\s*(\d+)\s*>>')
 
 
 def tlc_trace(trace, metadir, module="Trace", cfg="Trace.cfg", timeout=1800, heap="6g"):
